@@ -55,10 +55,11 @@ StepF(e, w) ==
       [] e.op = "ChanShape"    -> RV(w, "ok", -1, <<1, Length(w.views[a[1]]), Capacity(w.views[a[1]])>>)
       [] e.op = "Drop"         -> DropF(w, a[1])
       [] e.op = "ChannelLength"-> RC(w, "ok", ChanLen(a[1], a[2]))
+      [] e.op = "Observe"      -> R(w, "ok")
 
 (* views an event operates on (for classification only) *)
 Operated(e) ==
-    CASE e.op \in {"Alloc", "ChannelLength"} -> {}
+    CASE e.op \in {"Alloc", "ChannelLength", "Observe"} -> {}
       [] e.op \in {"Append", "Convert"} -> {e.args[1], e.args[2]}
       [] OTHER -> {e.args[1]}
 
@@ -77,6 +78,7 @@ ResOK(e, r) == /\ (r.res = e.res \/ (r.res = "havoc" /\ e.res = "ok"))
 Class(e, w, r) ==
     IF e.pf # 0 THEN "proj"
     ELSE IF ~ResOK(e, r) THEN "res"
+    ELSE IF e.op = "Observe" THEN "other"
     ELSE IF Len(e.obs) # Len(r.w.views) THEN "self"
     ELSE IF \E v \in Operated(e) : v <= Len(e.obs) /\ e.obs[v] # Project(r.w)[v] THEN "self"
     ELSE IF e.op = "Alloc" /\ Len(e.obs) > 0 /\ e.obs[Len(e.obs)] # Project(r.w)[Len(e.obs)] THEN "self"
@@ -101,7 +103,7 @@ Next ==
        ELSE LET r == StepF(e, world) IN
          IF r.res = "unspec"
          THEN dead' = TRUE /\ nunspec' = nunspec + 1 /\ UNCHANGED <<world, tid, nbad, njudged>>
-         ELSE IF ResOK(e, r) /\ Project(r.w) = e.obs /\ e.pf = 0
+         ELSE IF ResOK(e, r) /\ (e.noobs = 1 \/ Project(r.w) = e.obs) /\ e.pf = 0
          THEN /\ world' = r.w /\ njudged' = njudged + 1 /\ UNCHANGED <<dead, tid, nunspec>>
               /\ IF e.allocs >= 0 /\ Budget(e, world, r) >= 0 /\ e.allocs > Budget(e, world, r)
                  THEN /\ PrintT(<<"MISMATCH", l, tid, e.op, "alloc", Budget(e, world, r), e.allocs,
